@@ -23,7 +23,7 @@ import (
 // on the real compiler+VM and on the independent tree-walking evaluator, plus
 // metamorphic groups (equivalent spellings must behave identically).
 
-var c01Inputs = []string{"a b c\n", "1 2\n3 4\n5", " x  y \n\n10 9\n", ""}
+var c01Inputs = []string{"a b c\n", "1 2\n3 4\n5", " x  y \n\n10 9\n", "", "a b c d\ne\n7 08 9.0\n"}
 
 const c01Pre = "p1 p2\np3\n"
 
